@@ -44,6 +44,7 @@ package actor
 //@   requires len(routees) > 0 && len(routees) <= 1<<32
 //@   at call 1 of (*ReceiveContext).Tell assert rr-target: arg1 == routees[rr_slot(old(x.roundRobinNext), len(routees))]
 //@   at call 1 of (*ReceiveContext).Tell ghost tells = tells + 1
+//@   at call 2 of (*ReceiveContext).Tell ghost tells = tells + 1
 //@   loop 1 invariant bounds: -1 <= rangeindex && (rangeindex == -1 || rangeindex < len(routees))
 //@   ensures rr-slot-in-range: old(x.routingStrategy) == RoundRobinRouting ==> 0 <= rr_slot(x.roundRobinNext, len(routees)) && rr_slot(x.roundRobinNext, len(routees)) < len(routees)
 //@   ensures rr-cyclic-order: old(x.routingStrategy) == RoundRobinRouting ==> rr_slot(x.roundRobinNext, len(routees)) == (rr_slot(old(x.roundRobinNext), len(routees)) + 1) % len(routees)
@@ -479,3 +480,70 @@ package actor
 //@   preserve producerController.confirmedSeq, producerController.unconfirmed
 //@   loop 1 invariant cut-in-range: 0 <= cut && cut <= len(x.unconfirmed) && x.unconfirmed == old(x.unconfirmed) && x.confirmedSeq == confirmed
 //@   ensures watermark-monotone: x.confirmedSeq >= old(x.confirmedSeq) && (confirmed > old(x.confirmedSeq) ==> x.confirmedSeq == confirmed) && (confirmed <= old(x.confirmedSeq) ==> x.confirmedSeq == old(x.confirmedSeq))
+
+// ---------------------------------------------------------------------------
+//@ property C13
+//@ load github.com/tochemey/goakt/v4/errors
+//
+// Stash kernel. The stash buffer is an UnboundedMailbox (a FIFO queue whose
+// linearizability is C04, not claimed); under that assumption "neither lost,
+// duplicated nor reordered" is: stash enqueues exactly one faithful clone,
+// unstash re-enters exactly the dequeued message, unstashAll re-enters every
+// dequeued message - each before the next one is dequeued - and stops only
+// when the buffer reports empty.
+//@ ghost var stashed int
+//@ ghost var dequeued int
+//@ ghost var redelivered int
+//@ ghost var pendingRedelivery int
+//@ ghost var lastDeq *ReceiveContext
+//@ ghost var lastEmpty bool
+
+// the context pool only ever receives dereferenced (hence non-nil) contexts
+//@ func cloneContext(src)
+//@   requires src != nil
+//@   at call 1 of getContext assume result != nil
+//@   ensures faithful-copy: result != nil && result.message == src.message && result.sender == src.sender && result.self == src.self && result.response == src.response && result.requestID == src.requestID && result.requestReplyTo == src.requestReplyTo && result.err == src.err && result.ctx == src.ctx
+
+//@ func (*PID).stash(pid, ctx)
+//@   requires ctx != nil
+//@   at call 1 of (*UnboundedMailbox).Enqueue assert enqueues-a-faithful-clone-into-the-stash: arg0 == pid.stashState.box && arg1 != nil && arg1.message == ctx.message && arg1.sender == ctx.sender && arg1.response == ctx.response && arg1.requestID == ctx.requestID
+//@   at call 1 of (*UnboundedMailbox).Enqueue ghost stashed = stashed + 1
+//@   ensures no-buffer-is-an-error: (old(pid.stashState) == nil || old(pid.stashState.box) == nil) ==> result != nil && stashed == old(stashed)
+//@   ensures stashes-exactly-once: old(pid.stashState) != nil && old(pid.stashState.box) != nil ==> stashed == old(stashed) + 1 && result == nil
+
+// doReceive only enqueues into the actor's mailbox and schedules it; the handler
+// (which might stash again) runs later on a dispatcher worker
+//@ func (*PID).unstash(pid)
+//@   async-boundary (*PID).doReceive
+//@   preserve PID.stashState, stashState.box
+//@   at call 1 of (*UnboundedMailbox).Dequeue assert from-the-stash: arg0 == pid.stashState.box
+//@   at call 1 of (*UnboundedMailbox).Dequeue ghost lastDeq = result
+//@   at call 1 of (*PID).doReceive assert redelivers-the-dequeued-message: lastDeq != nil && arg1 != nil && arg1.message == lastDeq.message && arg1.sender == lastDeq.sender && arg1.response == lastDeq.response && arg1.requestID == lastDeq.requestID && arg0 == pid
+//@   at call 1 of (*PID).doReceive ghost redelivered = redelivered + 1
+//@   ensures no-buffer-is-an-error: (old(pid.stashState) == nil || old(pid.stashState.box) == nil) ==> result != nil && redelivered == old(redelivered)
+//@   ensures redelivers-exactly-once: old(pid.stashState) != nil && old(pid.stashState.box) != nil && lastDeq != nil ==> redelivered == old(redelivered) + 1 && result == nil
+//@   ensures empty-is-an-error: old(pid.stashState) != nil && old(pid.stashState.box) != nil && lastDeq == nil ==> redelivered == old(redelivered) && result != nil
+
+//@ structural writers PID.stashState: (*PID).registerRequestState, withStash
+//@ structural writers stashState.box: (*PID).registerRequestState, withStash
+//@ func (*PID).unstashAll(pid)
+//@   async-boundary (*PID).doReceive
+//@   preserve PID.stashState, stashState.box
+//@   requires pendingRedelivery == 0
+//@   at call 1 of (*UnboundedMailbox).IsEmpty assert of-the-stash: arg0 == pid.stashState.box
+//@   at call 1 of (*UnboundedMailbox).IsEmpty ghost lastEmpty = result
+//@   at call 1 of (*UnboundedMailbox).Dequeue assert previous-one-was-redelivered-first: pendingRedelivery == 0 && arg0 == pid.stashState.box
+//@   at call 1 of (*UnboundedMailbox).Dequeue ghost lastDeq = result
+//@   at call 1 of (*UnboundedMailbox).Dequeue ghost dequeued = ite(result != nil, dequeued + 1, dequeued)
+//@   at call 1 of (*UnboundedMailbox).Dequeue ghost pendingRedelivery = ite(result != nil, 1, 0)
+//@   at call 1 of (*PID).doReceive assert redelivers-the-dequeued-message: pendingRedelivery == 1 && lastDeq != nil && arg1 != nil && arg1.message == lastDeq.message && arg1.sender == lastDeq.sender && arg1.response == lastDeq.response && arg1.requestID == lastDeq.requestID && arg0 == pid
+//@   at call 1 of (*PID).doReceive ghost redelivered = redelivered + 1
+//@   at call 1 of (*PID).doReceive ghost pendingRedelivery = 0
+//@   loop 1 invariant every-dequeued-redelivered: pendingRedelivery == 0 && redelivered - old(redelivered) == dequeued - old(dequeued) && pid.stashState == old(pid.stashState) && pid.stashState.box == old(pid.stashState.box)
+//@   ensures no-buffer-is-an-error: (old(pid.stashState) == nil || old(pid.stashState.box) == nil) ==> result != nil && redelivered == old(redelivered)
+//@   ensures drains-until-empty: old(pid.stashState) != nil && old(pid.stashState.box) != nil ==> result == nil && lastEmpty && pendingRedelivery == 0 && redelivered - old(redelivered) == dequeued - old(dequeued)
+
+// the public wrappers report the error on the context instead of dropping it
+//@ func (*ReceiveContext).Stash(rctx)
+//@   requires rctx != nil && rctx.self != nil
+//@   ensures no-buffer-reported: (old(rctx.self.stashState) == nil || old(rctx.self.stashState.box) == nil) ==> rctx.err != nil
